@@ -6,6 +6,8 @@
 package peerfsm
 
 import (
+	"bufio"
+	"bytes"
 	"context"
 	"crypto/sha1"
 	"encoding/json"
@@ -277,11 +279,29 @@ func Replay(in []byte) any {
 		protocol.HandshakeResult{Hash: t.Hash, Id: hash.Hash(id2), Fast: true, Extended: true}, false)
 	defer fp2.Stop()
 	t.VerifAddPeer(fp2.P)
+	fp.Metadata, fp2.Metadata = true, true
+	// everything the peers write is serialised as the real writer goroutine would (protocol.Write):
+	// a message that cannot be serialised panics there and takes the client down
+	writePanic := ""
+	serialise := func(m protocol.Message) {
+		defer func() {
+			if p := recover(); p != nil && writePanic == "" {
+				writePanic = fmt.Sprintf("%v (message %T %+v)", p, m, m)
+			}
+		}()
+		var sink bytes.Buffer
+		protocol.Write(bufio.NewWriter(&sink), m, nil)
+	}
 	drainWriter := func() {
+		for n := 0; n < 500 && !(fp.Idle() && fp2.Idle()); n++ {
+			time.Sleep(200 * time.Microsecond)
+		}
 		for {
 			select {
-			case <-fp.Writer:
-			case <-fp2.Writer:
+			case m := <-fp.Writer:
+				serialise(m)
+			case m := <-fp2.Writer:
+				serialise(m)
 			default:
 				return
 			}
@@ -334,7 +354,11 @@ func Replay(in []byte) any {
 					}
 					done <- r
 				}()
-				r.err = peer.VerifHandleMessage(fp.P, pm)
+				fp.Mu.Lock()
+				func() {
+					defer fp.Mu.Unlock()
+					r.err = peer.VerifHandleMessage(fp.P, pm)
+				}()
 				// the torrent-side processing of everything the message gave rise to
 				for {
 					select {
@@ -364,6 +388,13 @@ func Replay(in []byte) any {
 			out.MaxAlloc = alloc
 		}
 		drainWriter()
+		if writePanic == "" {
+			writePanic = fp.Panic + fp2.Panic
+		}
+		if writePanic != "" {
+			viol("writer-panic", "a message the peer was made to write cannot be serialised, or its handler panicked: "+writePanic)
+			return out
+		}
 		if r.panicked != "" {
 			key := "handler-panic"
 			switch {
